@@ -3,7 +3,8 @@
 //! all 16 kinds travel encode -> fragment -> frame encoding -> link -> frame
 //! decoding -> reassembly -> address filter -> handler -> decode. Decides C01.
 
-use crate::dev::{AnyLink, Dev, LinkKind, Wire};
+use crate::dev::{Dev, LinkKind, Wire};
+use ross_protocol::interface::Interface;
 use crate::events::{gen_event, AnyEvent, KIND_NAMES, N_KINDS};
 use crate::gen::{packet_eq, SizeCfg};
 use crate::link_clean::schedule_policy;
@@ -16,7 +17,6 @@ use ross_protocol::protocol::{Protocol, ProtocolError, BROADCAST_ADDRESS};
 use std::cell::RefCell;
 use std::rc::Rc;
 
-type Proto = Protocol<'static, AnyLink>;
 
 thread_local! {
     static DEPTH: std::cell::Cell<u32> = std::cell::Cell::new(0);
@@ -41,12 +41,12 @@ struct HandlerCfg {
     removed: bool,
 }
 
-fn mk_handler(sim: &Sim, node: &'static str, idx: usize, cfg: &HandlerCfg, own: u16, reply_to: u16, sh: &Rc<RefCell<Shared>>) -> Box<dyn FnMut(&Packet, &mut Proto)> {
+fn mk_handler<I: Interface + 'static>(sim: &Sim, node: &'static str, idx: usize, cfg: &HandlerCfg, own: u16, reply_to: u16, sh: &Rc<RefCell<Shared>>) -> Box<dyn FnMut(&Packet, &mut Protocol<'static, I>)> {
     let sim = sim.clone();
     let sh = sh.clone();
     let acks = cfg.acks;
     let long_reply = cfg.long_reply;
-    Box::new(move |p: &Packet, proto: &mut Proto| {
+    Box::new(move |p: &Packet, proto: &mut Protocol<'static, I>| {
         let _g = crate::alloc::SimDomain::enter();
         sim.event(31, idx as u64, hash_packet(p), || format!("{}.handler[{}] called with {}", node, idx, show_packet(p)));
         sh.borrow_mut().logs[idx].push(p.clone());
@@ -91,8 +91,19 @@ fn show_tick(r: &Result<Result<(), ProtocolError>, Crash>) -> String {
     }
 }
 
+/// The nodes are `Protocol` over the *concrete* link types (no wrapper type between the
+/// protocol and the link: whatever the two agree on through the `Interface` trait, provided
+/// methods included, is what runs).
 pub fn run(sim: &Sim, prop: &str, tier: Tier) -> Outcome {
     let kind = LinkKind::from_index(sim.draw(3));
+    match kind {
+        LinkKind::Usart => run_on(sim, prop, tier, kind, |d| ross_protocol::interface::usart::Usart::new(d)),
+        LinkKind::Can => run_on(sim, prop, tier, kind, |d| ross_protocol::interface::can::Can::new(bxcan::Can::new(d))),
+        LinkKind::Serial => run_on(sim, prop, tier, kind, |d| ross_protocol::interface::serial::Serial::new(Box::new(d))),
+    }
+}
+
+fn run_on<I: Interface + 'static>(sim: &Sim, prop: &str, tier: Tier, kind: LinkKind, mk_link: impl Fn(Dev) -> I) -> Outcome {
     let mode = sim.draw(7);
     // addresses: distinct, or both broadcast
     let a = match sim.draw(7) {
@@ -152,8 +163,8 @@ pub fn run(sim: &Sim, prop: &str, tier: Tier) -> Outcome {
         ab.borrow_mut().forced_wb = Some((sim.draw(60) as usize, long_pause));
         sim.probe("long_no_data_pause");
     }
-    let mut na: Proto = Protocol::new(a, AnyLink::new(kind, Dev::new(sim, "A", &ba, &ab)));
-    let mut nb: Proto = Protocol::new(b, AnyLink::new(kind, Dev::new(sim, "B", &ab, &ba)));
+    let mut na: Protocol<'static, I> = Protocol::new(a, mk_link(Dev::new(sim, "A", &ba, &ab)));
+    let mut nb: Protocol<'static, I> = Protocol::new(b, mk_link(Dev::new(sim, "B", &ab, &ba)));
 
     // ---- handler tables
     let both_broadcast = a == b;
@@ -373,7 +384,7 @@ pub fn run(sim: &Sim, prop: &str, tier: Tier) -> Outcome {
         None
     };
 
-    let mut do_tick = |who: &'static str, n: &mut Proto, sent: usize| -> Option<Outcome> {
+    let mut do_tick = |who: &'static str, n: &mut Protocol<'static, I>, sent: usize| -> Option<Outcome> {
         {
             let w = if who == "A" { &ba } else { &ab };
             w.borrow_mut().begin_poll();
@@ -417,8 +428,33 @@ pub fn run(sim: &Sim, prop: &str, tier: Tier) -> Outcome {
             0 => {
                 idle = 0;
                 let (_, p) = &planned[sent];
-                sim.event(EV_APP, 42, hash_packet(p), || format!("A.send_packet({})", show_packet(p)));
-                let r = sut(|| na.send_packet(p));
+                // Sometimes the event goes out as the request of an *exchange* (an exchange routes
+                // its request exactly like an ordinary send). Nothing new arrives at A while the
+                // call lasts (reads at frame boundaries are answered "no data yet"), so the
+                // exchange consumes no reply and times out; a reply that A has received half of
+                // must still be completed and delivered by later ticks.
+                let as_exchange = acking && !crate::link_hostile::reads_ahead(kind) && sim.chance(20);
+                let r = if as_exchange {
+                    sim.event(EV_APP, 43, hash_packet(p), || format!("A.exchange_packet::<Ack>({}) [nothing new arrives at A during the call]", show_packet(p)));
+                    sim.probe("event_sent_as_exchange_request");
+                    ba.borrow_mut().freeze = true;
+                    ba.borrow_mut().begin_poll();
+                    let req = p.clone();
+                    let r = sut(|| na.exchange_packet::<_, AckEvent>(req, false, || {}));
+                    ba.borrow_mut().end_poll();
+                    ba.borrow_mut().freeze = false;
+                    match r {
+                        Ok(Ok(_)) | Ok(Err(ProtocolError::PacketTimeout)) => Ok(Ok(())),
+                        Ok(Err(e)) => Ok(Err(e)),
+                        Err(c) => Err(c),
+                    }
+                } else {
+                    sim.event(EV_APP, 42, hash_packet(p), || format!("A.send_packet({})", show_packet(p)));
+                    ba.borrow_mut().in_poll = true;
+                    let r = sut(|| na.send_packet(p));
+                    ba.borrow_mut().in_poll = false;
+                    r
+                };
                 match r {
                     Ok(Ok(())) => {}
                     other => {
